@@ -25,6 +25,11 @@ CHECKS = {
    technique='TLA+ spec (specs/Lifecycle) model-checked with TLC incl. liveness; behaviours replayed into a real pair with state comparison; crash-point enumeration of a scripted session at every packet boundary',
    text='TLC exhausts the Lifecycle specification (open/confirm/failure, request, EOF, CLOSE handshake, close/abort, connection close/abort, transport cut at any moment, coalesced packets, deferred clean-up callbacks; 1-2 channels) against AllWaitersResolved/CloseOnceAndLast/LegalOrder/NoChannelLeft and the liveness property Terminates; sampled behaviours are replayed into the real code with callback logs, waiter states and channel states compared step by step; a scripted client program with stream, drain, SFTP and wait_closed waiters is re-run with 7 fault kinds at every packet boundary and must leave no pending task when the loop goes idle.',
    note='Trusted: TLC, virtual loop (idle detection = hung-waiter oracle), hooks for packet boundaries. Both peers are asyncssh. Bounded: <=2 channels, <=6 operations, one scripted crash-point scenario.'),
+ 'C02': dict(
+   category='model_checking', design_ref='DESIGN.md §5.2',
+   technique='TLA+ spec of the receive machine (specs/RecvMachine) model-checked with TLC; TLC-chosen chunkings applied to live sessions; every emitted byte decoded by an independent RFC 4253 implementation (harness/wire.py)',
+   text='TLC exhausts every segmentation of a packet stream (version line, asynchronous handler) through the version/header/body receive machine (InOrderOnce, NotEarly, AllDispatched, liveness; sensitivity variant rejected); TLC-chosen cut sets are mapped onto the real packet boundaries of live sessions in both directions with byte jitter; for every cipher x MAC (x compression), kex family, payload sizes around the block size and sequence numbers near 2^16/2^32 an independent decoder with its own key derivation, decryption, MAC, padding and sequence checks must accept everything both endpoints emit and see exactly the emitted payloads.',
+   note='Trusted: TLC, wire.py + `cryptography` primitives, K/H from the key-log hook (kex arithmetic is C03). UMAC tags unverified (no independent UMAC). Conformance part is decided by the independent decoder, not by TLC.'),
 }
 NOT_YET = 'check under construction in this round; see DESIGN.md §9'
 
